@@ -335,7 +335,12 @@ fn mmio_case(d: Drv, offered: u64, version: u32, fail: usize, id: String, prop: 
                 };
                 for (nm, a) in areas {
                     if hal::translate(a + DMA_SHIFT, 2).is_err() {
-                        c.fail(format!("[C04] queue {}: the {} address {:#x} written to the device registers was not obtained from dma_alloc ({})", qi, nm, a, hal::with(|h| h.canon_addr(a + DMA_SHIFT))));
+                        // the same fact is a violation of C02 (the device reads the ring elsewhere), C04 (an
+                        // address not obtained from the platform) and C06 (the registered area is not the
+                        // allocated one): one failure per check, each check keeps its own
+                        for tag in ["C02", "C04", "C06"] {
+                            c.fail(format!("[{}] queue {}: the {} address {:#x} written to the device registers was not obtained from dma_alloc ({})", tag, qi, nm, a, hal::with(|h| h.canon_addr(a + DMA_SHIFT))));
+                        }
                     }
                 }
             }
